@@ -332,7 +332,7 @@ func c16Judge(acts []c16Action, ex *vsched.Exec, o c16Outcome, ref map[string]bo
 	for i := range acts {
 		for j := i + 1; j < len(acts); j++ {
 			if acts[i].Name == acts[j].Name && strings.HasPrefix(acts[i].Kind, "onetime:") && o.Upgraded[i] && o.Upgraded[j] {
-				keys, whats, harm = append(keys, "C16|double-spend|"+acts[i].Handler+"|"+strings.TrimPrefix(acts[i].Kind, "onetime:")+"|window="+c16Window(ex)), append(whats, fmt.Sprintf("two simultaneous presentations of the same %s were both honoured (schedule %v)", strings.TrimPrefix(acts[i].Kind, "onetime:"), ex.Choices)), true
+				keys, whats, harm = append(keys, "C16|double-spend|"+acts[i].Handler+"|"+strings.TrimPrefix(acts[i].Kind, "onetime:")+"|window="+c16Window(ex, len(acts))), append(whats, fmt.Sprintf("two simultaneous presentations of the same %s were both honoured (schedule %v)", strings.TrimPrefix(acts[i].Kind, "onetime:"), ex.Choices)), true
 			}
 		}
 	}
@@ -346,8 +346,12 @@ func c16Judge(acts []c16Action, ex *vsched.Exec, o c16Outcome, ref map[string]bo
 // which the one preempted request was parked when the other one was let run
 // (schedules with exactly one preemption, the minimal witnesses), "multi" for
 // schedules with more preemptions, "none" when no preemption was needed at all
-// (the value is honoured twice even sequentially).
-func c16Window(ex *vsched.Exec) string {
+// (the value is honoured twice even sequentially).  Only two-request scenarios
+// are refined; with a third request running along the key says so.
+func c16Window(ex *vsched.Exec, requests int) string {
+	if requests > 2 {
+		return "3-threads" // thorough tier: a third request runs along; not refined
+	}
 	n, lab := 0, ""
 	for _, p := range ex.Points {
 		if p.RunningEnabled && p.Chosen != 0 {
@@ -393,7 +397,7 @@ func init() {
 	vfRegister(&vfeng.Check{
 		ID:    "C16",
 		Level: "model_checking",
-		Rule:  "stateless model checking of the real handlers under a controlled cooperative scheduler (vsched): for every unordered pair (incl. twins) of 20 request kinds and one pass of the real background clean-up loop that save or delete a profile, consume a one-time value or touch a shared map (thorough: also triples {Disable|Delete} x saver x saver and one-time triples), all interleavings at shim-lock and storage-operation (LoadUserProfile/SaveUserProfile/DeleteUserProfile/...) granularity with at most 2 preemptions (thorough 3) are executed on fresh instances; per execution: vector-clock analysis of the probed RuntimeState fields (localAuthData, vipPushCookie, pendingOauth2, totpLocalRateLimit, signer fields), deadlock/hang detection, and comparison of (responses, upgraded cookies, final token state) with the outcomes of all sequential orders of the same handlers; plus two unseal injections racing each other and a reader of the CA material on a sealed instance (signer fields race-free, one acknowledged transition)",
+		Rule:  "plus 7 (thorough 9) scenarios against a daemon whose password backend is Okta (fake Okta RoundTripper): logins and second-factor requests touching expired / live entries of the backend's own session cache, with that package's mutex as scheduling point and its map accesses probed; stateless model checking of the real handlers under a controlled cooperative scheduler (vsched): for every unordered pair (incl. twins) of 20 request kinds and one pass of the real background clean-up loop that save or delete a profile, consume a one-time value or touch a shared map (thorough: also triples {Disable|Delete} x saver x saver and one-time triples), all interleavings at shim-lock and storage-operation (LoadUserProfile/SaveUserProfile/DeleteUserProfile/...) granularity with at most 2 preemptions (thorough 3) are executed on fresh instances; per execution: vector-clock analysis of the probed RuntimeState fields (localAuthData, vipPushCookie, pendingOauth2, totpLocalRateLimit, signer fields), deadlock/hang detection, and comparison of (responses, upgraded cookies, final token state) with the outcomes of all sequential orders of the same handlers; plus two unseal injections racing each other and a reader of the CA material on a sealed instance (signer fields race-free, one acknowledged transition)",
 		Assumptions: []string{"preemption happens only at scheduling points: shim Lock, entry and exit of storage operations, spawn, thread end; critical sections of real mutexes (metrics, limiter, admin cache) are atomic at this granularity", "a non-serialisable outcome is a violation only when an acknowledged disable/delete is not in effect at the end or one one-time value is honoured twice; other lost updates are counted in the evidence", "races on fields without probes are left to the Go race detector (not part of this verdict)"},
 		Bounds: func(tier string) map[string]interface{} {
 			b := 2
@@ -416,6 +420,7 @@ func init() {
 				acts := c16ActionsByName(names)
 				ref := c16Sequential(acts)
 				var lastOutcome c16Outcome
+				vsched.Stop = c.Expired
 				st := vsched.Explore(bound, 20000, func(prefix []int) *vsched.Exec {
 					ex, o := c16RunOne(acts, prefix)
 					lastOutcome = o
@@ -439,6 +444,9 @@ func init() {
 				c.Res.States += int64(st.Executions)
 				c.Res.Transitions += int64(st.Decisions)
 				c.Res.Traces += int64(st.Executions)
+				if st.TimedOut {
+					c.Inexhaustive("deadline reached inside the schedule exploration")
+				}
 				if st.Capped {
 					c.Inexhaustive(fmt.Sprintf("execution cap reached for %v", names))
 				}
@@ -452,6 +460,7 @@ func init() {
 				}
 				var outsLast []c09Out
 				var wLast *vfWorld
+				vsched.Stop = c.Expired
 				st := vsched.Explore(bound, 20000, func(prefix []int) *vsched.Exec {
 					ex, outs, w := c09RunSchedule(combo, prefix)
 					outsLast, wLast = outs, w
@@ -473,6 +482,46 @@ func init() {
 				c.Res.States += int64(st.Executions)
 				c.Res.Transitions += int64(st.Decisions)
 				c.Res.Traces += int64(st.Executions)
+				if st.TimedOut {
+					c.Inexhaustive("deadline reached inside the schedule exploration")
+				}
+				if st.Capped {
+					c.Inexhaustive(fmt.Sprintf("execution cap reached for %v", combo))
+				}
+			}
+			// the Okta backend's own session cache and lock (c16okta.go)
+			okc := c16OktaCombos(c.Thorough())
+			for oi, combo := range okc {
+				if !c.Mine(len(combos) + 3 + oi) {
+					continue
+				}
+				combo := combo
+				var codesLast []int
+				vsched.Stop = c.Expired
+				st := vsched.Explore(bound, 20000, func(prefix []int) *vsched.Exec {
+					ex, codes := c16OktaRunOne(combo, prefix)
+					codesLast = codes
+					return ex
+				}, func(ex *vsched.Exec) {
+					c.Eval(1)
+					pt := c16Point{Actions: append([]string{"okta"}, combo...), Choices: ex.Choices}
+					keys, whats, class := c16OktaJudge(combo, ex, codesLast)
+					for k := range keys {
+						c.Violate(keys[k], whats[k], pt)
+					}
+					if len(keys) == 0 {
+						c.Class(class, pt)
+					}
+					if ex.Diverged != "" {
+						c.Res.HarnessErr = "schedule replay diverged: " + ex.Diverged
+					}
+				})
+				c.Res.States += int64(st.Executions)
+				c.Res.Transitions += int64(st.Decisions)
+				c.Res.Traces += int64(st.Executions)
+				if st.TimedOut {
+					c.Inexhaustive("deadline reached inside the schedule exploration")
+				}
 				if st.Capped {
 					c.Inexhaustive(fmt.Sprintf("execution cap reached for %v", combo))
 				}
@@ -482,6 +531,17 @@ func init() {
 			var p c16Point
 			if err := json.Unmarshal(raw, &p); err != nil {
 				return false, err.Error()
+			}
+			if len(p.Actions) > 0 && p.Actions[0] == "okta" {
+				ex, codes := c16OktaRunOne(p.Actions[1:], p.Choices)
+				if ex.Diverged != "" {
+					return false, "diverged: " + ex.Diverged
+				}
+				keys, whats, class := c16OktaJudge(p.Actions[1:], ex, codes)
+				if len(keys) > 0 {
+					return true, keys[0] + " :: " + whats[0]
+				}
+				return false, "schedule replayed: " + class
 			}
 			if len(p.Actions) > 0 && p.Actions[0] == "unseal" {
 				ex, outs, w := c09RunSchedule(p.Actions[1:], p.Choices)
